@@ -441,7 +441,7 @@ func inputValString(in *InputRec, model map[string]ModelVal) string {
 		return fmt.Sprintf("0x%016x", mv.U)
 	case SInt:
 		if in.Kind == "len" {
-			return new(big.Rat).Quo(mv.R, big.NewRat(256, 1)).RatString()
+			return new(big.Rat).Quo(mv.R, big.NewRat(1<<sxLenBits, 1)).RatString()
 		}
 		return mv.R.RatString()
 	default:
